@@ -20,6 +20,27 @@ CHECKS = {
         engine="E"),
 }
 
+CHECKS["C17"] = dict(
+    category="model_checking",
+    text="TLC checks both rolling-checksum register machines (plain with register width W, fast with lazy reduction) against "
+         "the definition exhaustively at small moduli where every borrow/wrap is reachable; every enumerated behaviour is "
+         "replayed on both real types (literal and replicated up to 65535-byte windows), and seeded long runs (>5000 / >10000 "
+         "slides, 0xFF data, windows to 65536) are recorded; TLC validates every recorded operation against the definition "
+         "at M=65521. Exhaustive in the small model, sampled at real sizes - the level the arithmetic allows (TLC integers "
+         "are 32-bit).",
+    design_ref="5 (C17), 4.1", technique="TLA+ register-machine model (TLC exhaustive, small moduli) + behaviour replay + trace validation at real constants",
+    note="observation through the public API (digest, len, sum_a, sum_b); definition evaluated by TLC with modular folds",
+    engine="E")
+CHECKS["C19"] = dict(
+    category="model_checking",
+    text="TLC checks the code-shaped matcher / exclude rule / planner loops / listing parser against their declarative "
+         "definitions on complete bounded domains (all patterns x texts to length 3/4 over {a,b,*,?,.,/}; all src/dst maps on "
+         "3 paths; all listings of <=2 records incl. tabs/newlines/dots); every case is executed on the real functions and "
+         "compared; seeded larger cases are validated back by TLC.",
+    design_ref="5 (C19), 4.3", technique="TLA+ case analysis (TLC exhaustive) + spec->code replay of every case + code->spec trace validation",
+    note="plan.rs / meta.rs compiled in unchanged via #[path]; sortedness is PathBuf order (A11)",
+    engine="E")
+
 NOT_BUILT = "check not built yet in this round (planned in DESIGN.md section 5)"
 
 
